@@ -15,7 +15,9 @@ RULE = ('Hypothesis-generated (a) handler class hierarchies (2-6 classes decorat
         'and empty-decorated intermediates, plain mixins) and (b) histories over a plain EventDispatcher: '
         'add_handler (also repeated), remove_handler (also of strangers), dispatch(name, *args, **kwargs) with '
         'generated positional/keyword arguments, dispatch of unknown names, and one-shot scripts armed on '
-        'handlers that add/remove handlers or dispatch re-entrantly (depth <= 3) from inside callbacks. Oracle: '
+        'handlers that add/remove handlers or dispatch re-entrantly (depth <= 3) from inside callbacks, and '
+        'disable; dispatch; enable cycles during whose release one callback raises (afterwards dispatching is enabled '
+        'again and everything must work as before). Oracle: '
         '__events__ of every class = independent fold over its parent (bases re-read after every decoration: '
         'unchanged); per dispatch frame every handler registered at frame start and not removed during it is '
         'called exactly once on the mapped method with identical args/kwargs, removed/added during the frame 0 '
@@ -28,7 +30,8 @@ ASSUMPTIONS = [
     'a handler added or removed while a dispatch of that event is iterating may or may not be reached by it',
     'single inheritance of mappings (one base lineage carries __events__; plain mixins may be mixed in)',
     'keyword arguments never use the names self / event_name (they collide with the API\'s own parameters)',
-    'dispatching stays enabled',
+    'dispatching is enabled except inside the disable; dispatch; enable cycle of the "cycle" operation, whose '
+    'release may be cut short by a raising callback (what that release owes is C04\'s subject)',
 ]
 FINDINGS = {}
 
@@ -107,7 +110,9 @@ def decode_op(t):
     sel, p = t
     d = [(p >> (4 * i)) & 15 for i in range(5)]
     kind = ('add', 'add', 'add', 'remove', 'remove', 'dispatch', 'dispatch', 'dispatch', 'dispatch', 'arm',
-            'arm', 'stranger', 'unknown')[sel % 13]
+            'arm', 'stranger', 'unknown', 'cycle')[sel % 14]
+    if kind == 'cycle':
+        return ['cycle', d[0], d[1]]
     if kind in ('add', 'remove', 'stranger'):
         return [kind, d[0]]
     if kind == 'dispatch':
@@ -119,14 +124,20 @@ def decode_op(t):
 
 def strategy():
     cls = st.integers(0, CLASS_SPACE - 1).map(decode_class)
-    op = st.tuples(st.integers(0, 12), st.integers(0, 16 ** 5 - 1)).map(decode_op)
+    op = st.tuples(st.integers(0, 13), st.integers(0, 16 ** 5 - 1)).map(decode_op)
     return st.fixed_dictionaries({
         'classes': st.lists(cls, min_size=2, max_size=6),
         'handlers': st.lists(st.integers(0, 23), min_size=1, max_size=6),
         'ops': worldops.chunked(op, 40)})
 
 
+class UserError(Exception):
+    """raised by a callback of the program under test"""
+
+
 class Frame:
+    tolerant = False
+
     def __init__(self, name, args, kwargs, start):
         self.name, self.args, self.kwargs = name, args, kwargs
         self.start = start              # handler ix registered at frame start whose class maps the event
@@ -142,6 +153,7 @@ class Run:
         self.step_ix = -1
         self.registered = set()
         self.scripts = {}
+        self.raise_in = None
         self.any_rereg_or_removal = False
 
     def viol(self, clause, **d):
@@ -210,6 +222,10 @@ class Run:
                       function_defined_in_class=defcls, handler_class=self.hcls[h.ix],
                       note='an overriding subclass got the function of a base class')
         self.stack[-1].calls.append((h.ix, method, args, kwargs))
+        if self.raise_in == h.ix and len(self.stack) == 1 and self.stack[0].tolerant:
+            self.raise_in = None
+            self.flags['callback_raised_during_a_release'] += 1
+            raise UserError('callback failed')
         script = self.scripts.pop(h.ix, None)
         if script is not None and len(self.stack) < 3:
             self.flags['script_ran'] += 1
@@ -303,6 +319,51 @@ class Run:
             self.flags['dispatch'] += 1
         return frame
 
+    def op_cycle(self, evsel, hsel):
+        """disable; dispatch (postponed); enable - and one listener's callback raises during the release.  What the
+        interrupted release owes is C04's subject; here: nobody is called twice or without being a listener, the
+        exception comes out, and afterwards dispatching IS enabled again - the rest of the history must behave as
+        ever."""
+        name = self.pick_event(evsel)
+        try:
+            self.d.dispatch_enabled = False
+            self.d.dispatch(name, 'postponed')
+        except Exception as exc:
+            self.viol('disabling_or_postponed_dispatch_raised', exception=repr(exc))
+        start = {h for h in self.registered if self.maps(h, name)}
+        frame = Frame(name, ('postponed',), {}, start)
+        frame.tolerant = True
+        victim = hsel % len(self.handlers)
+        self.raise_in = victim if victim in start else None
+        expect_raise = self.raise_in is not None
+        self.stack.append(frame)
+        raised = False
+        try:
+            self.d.dispatch_enabled = True
+        except UserError:
+            raised = True
+        except PropertyViolation:
+            raise
+        except Exception as exc:
+            self.viol('enabling_raised', exception=repr(exc))
+        finally:
+            self.stack.pop()
+            self.raise_in = None
+        if expect_raise and not raised:
+            self.viol('exception_of_a_callback_swallowed_by_the_release')
+        counts = collections.Counter(c[0] for c in frame.calls)
+        for h, n in counts.items():
+            if n > 1 or not ((h in start or h in frame.added) and self.maps(h, name)):
+                self.viol('dispatch_calls_nothing_else', event=name, handler=h, calls=n, postponed=True)
+        if not raised:
+            for h in start:
+                if h not in frame.removed and counts.get(h, 0) != 1:
+                    self.viol('registered_handler_called_exactly_once_per_dispatch', event=name, handler=h,
+                              calls=counts.get(h, 0), postponed=True)
+        if not self.d.dispatch_enabled:
+            self.viol('dispatcher_not_enabled_after_the_enabling_assignment')
+        self.flags['postponed_cycle'] += 1
+
     def pick_event(self, sel):
         """operand values < 12 prefer events that currently have several (else some) listeners."""
         if sel < 12:
@@ -374,6 +435,8 @@ class Run:
                 args = tuple(make_value(op[3] + i) for i in range(op[2]))
                 kwargs = {('k%d' % i): make_value(op[4] + i) for i in range(op[3] % 3)}
                 self.do_dispatch(self.pick_event(op[1]), args, kwargs)
+            elif kind == 'cycle':
+                self.op_cycle(op[1], op[2])
             elif kind == 'arm':
                 self.scripts[op[1] % len(self.handlers)] = (op[2], op[3], op[4])
             elif kind == 'unknown':
